@@ -80,6 +80,16 @@ type monitor struct {
 	r *vlib.Run
 }
 
+// caseWatchdog bounds one case. A case is CPU-bound (signatures, the
+// repository's JSON logging under -race) and never blocks on anything but the
+// scheduler: the voteproof channel holds 65535 entries and is drained after
+// every step, every step is a plain call. On a machine shared with dozens of
+// other checks a case that takes 20 s alone was seen to take more than 5
+// minutes (all goroutines runnable in the dump), so the bound is far above
+// that; the driver's own timeout (2700 s quick, 14400 s thorough) ends a run
+// that really hangs.
+const caseWatchdog = 45 * time.Minute
+
 // handle evaluates one emission and records it.
 func (m *monitor) handle(d *bbrig.Driver, e bbrig.Emission, cp caseParams, trail func() []string) {
 	r := m.r
@@ -90,6 +100,12 @@ func (m *monitor) handle(d *bbrig.Driver, e bbrig.Emission, cp caseParams, trail
 		r.Count("emitted_via_channel", 1)
 	} else {
 		r.Count("returned_by_StuckVoteproof", 1)
+	}
+	if info.Origin == "embedded" {
+		r.Count("emitted_embedded_total", 1)
+		if info.IDShared {
+			r.Count("emitted_embedded_whose_id_was_also_submitted_with_other_content", 1)
+		}
 	}
 	for _, f := range info.Findings {
 		r.Violation(f.Sig, f.What, map[string]any{"case": cp, "voteproof": summarize(e), "last_steps": trail()})
@@ -126,8 +142,22 @@ func (m *monitor) buildCase(phase int, idx int, n int, concurrent bool) (*bbrig.
 		o.SufChange = 0.4
 		o.PermHide = 0.35
 	}
+	// identifiers an attacker controls are replayed with other content: half of
+	// the hostile embedded voteproofs carry the ID of an honest voteproof of the
+	// same script (submitted earlier, for the same stage point, or later)
+	o.Replay = 0.5
+	if rng.Intn(3) > 0 {
+		// the box misses whole stages and learns their result from the voteproofs
+		// the next stage's ballots carry: those embedded voteproofs are validated,
+		// emitted and move the last point
+		o.Skip = 0.2
+	}
 	g := bbrig.NewGen(w, rng, o)
 	steps := g.Flow()
+	for k, v := range g.Replays {
+		r.Count("script_replayed:"+k, v)
+	}
+	r.Count("script_stages_missed_by_box", g.Skipped)
 	if w.SuffrageChanges() > 1 {
 		r.Count("cases_with_suffrage_changing_between_heights", 1)
 	}
@@ -156,7 +186,7 @@ func (m *monitor) runSingle(w *bbrig.World, steps []bbrig.Step, cp caseParams) i
 		}
 		return out
 	}
-	ok := r.WithWatchdog(5*time.Minute, fmt.Sprintf("single case %d", cp.Index), func() {
+	ok := r.WithWatchdog(caseWatchdog, fmt.Sprintf("single case %s %d", cp.Phase, cp.Index), func() {
 		for i := range steps {
 			cur = i
 			st := &steps[i]
@@ -222,7 +252,7 @@ func (m *monitor) runConcurrent(w *bbrig.World, steps []bbrig.Step, cp caseParam
 		mu.Unlock()
 	}
 
-	ok := r.WithWatchdog(5*time.Minute, fmt.Sprintf("concurrent case %d", cp.Index), func() {
+	ok := r.WithWatchdog(caseWatchdog, fmt.Sprintf("concurrent case %d", cp.Index), func() {
 		stop := make(chan struct{})
 		var cwg sync.WaitGroup
 		cwg.Add(1)
@@ -412,6 +442,79 @@ func (m *monitor) directed() {
 			}
 		},
 	})
+	// An expel is named in a ballot fact by its fact hash only: the same expel
+	// facts arrive under other node signs (a sign of a node outside the suffrage)
+	// on another ballot of a node - its second ballot after it has voted, or the
+	// very same sign fact before the properly signed one
+	for _, order := range []string{"second", "first"} {
+		order := order
+		cases = append(cases, dcase{
+			name: "same-expel-facts-other-signs/" + order + "-ballot-outsider-signed-n4", n: 4, th: 67,
+			build: func(w *bbrig.World, g *bbrig.Gen) []bbrig.Step {
+				ex := &bbrig.ExpelSpec{ID: "d-tw", Targets: []int{3}, Signers: all(3), Start: h - 1, End: h}
+				tw := &bbrig.ExpelSpec{ID: "d-tw-outsider", FactOf: "d-tw", Targets: []int{3}, Signers: all(3), Start: h - 1, End: h, OutsiderSigns: true}
+				var steps []bbrig.Step
+				for i := 0; i < 3; i++ {
+					if order == "second" {
+						steps = append(steps, g.DirectedINIT(i, p, "A", ex), g.DirectedBallot("init", w.Members[i], p, "C", tw, ""))
+					} else {
+						steps = append(steps, g.DirectedBallot("init", w.Members[i], p, "A", tw, ""), g.DirectedINIT(i, p, "A", ex))
+					}
+				}
+				return steps
+			},
+		})
+	}
+	// Voteproof IDs are free strings: a hostile embedded voteproof (invalid for
+	// the true suffrage) that carries the ID of an honest one, submitted by a
+	// genuine member after / before the honest one was processed, for the same
+	// stage point and for stage points ahead (next stage, next round, next height)
+	type ahead struct {
+		tag   string
+		stage string
+		p     base.Point
+	}
+	type size struct {
+		n  int
+		th base.Threshold
+	}
+	sizes := []size{{4, 67}}
+	if r.Thorough() {
+		sizes = []size{{4, 67}, {7, 75}, {2, 100}}
+	}
+	for _, ah := range []ahead{
+		{"same-stage-point", "init", p},
+		{"next-stage", "accept", p},
+		{"next-round", "init", p.NextRound()},
+		{"next-height", "init", base.NewPoint(h+1, 0)},
+	} {
+		for _, order := range []string{"after", "before"} {
+			for _, kind := range []string{"alloutsiders", "few", "outsider", "imposter"} {
+				if (kind == "imposter" && ah.stage == "accept") || (order == "before" && (kind == "outsider" || kind == "imposter")) {
+					continue
+				}
+				for _, nt := range sizes {
+					ah, order, kind := ah, order, kind
+					cases = append(cases, dcase{
+						name: fmt.Sprintf("id-replay/%s/%s/%s-n%d", order, ah.tag, kind, nt.n), n: nt.n, th: nt.th,
+						build: func(w *bbrig.World, g *bbrig.Gen) []bbrig.Step {
+							lp, _ := isaac.NewLastPoint(base.NewStagePoint(base.NewPoint(h-1, 0), base.StageINIT), true, false)
+							// no00's INIT ballot of (34,0) carries the honest ACCEPT voteproof X of (33,0)
+							honest := g.DirectedBallot("init", w.Members[0], p, "A", nil, "")
+							// no01's ballot carries a voteproof with X's ID and other content
+							hostile := g.DirectedBallot(ah.stage, w.Members[1], ah.p, "A", nil, kind+"@seen")
+							count := bbrig.Step{Op: "count", Desc: "count"}
+							steps := []bbrig.Step{{Op: "setlast", Last: lp, Desc: "setlast (33,0,INIT) majority"}}
+							if order == "after" {
+								return append(steps, honest, count, hostile)
+							}
+							return append(steps, hostile, count, honest)
+						},
+					})
+				}
+			}
+		}
+	}
 	for i, dc := range cases {
 		w := bbrig.NewWorld("c04-directed-"+dc.name, dc.n, dc.th, true, 33)
 		if dc.setup != nil {
@@ -419,6 +522,9 @@ func (m *monitor) directed() {
 		}
 		g := bbrig.NewGen(w, r.Rand(9, i), bbrig.ScriptOpts{})
 		steps := dc.build(w, g)
+		for k, v := range g.Replays {
+			r.Count("script_replayed:"+k, v)
+		}
 		steps = append(steps, bbrig.Step{Op: "count", Desc: "count"})
 		cp := caseParams{Phase: "directed:" + dc.name, Index: i, N: dc.n, Threshold: dc.th.String(), LocalIn: true, Heights: 1, Steps: len(steps)}
 		if len(g.Invalid) > 0 {
@@ -428,7 +534,7 @@ func (m *monitor) directed() {
 		em := m.runSingle(w, steps, cp)
 		r.Case("directed/" + dc.name)
 		r.Count("directed_emissions", em)
-		if i == 0 || i == 3 {
+		if i == 0 || i == 3 || dc.name == "id-replay/after/next-height/alloutsiders-n4" {
 			r.Sample(map[string]any{"case": cp, "script": descs(steps), "emitted": em})
 		}
 	}
@@ -449,7 +555,7 @@ func descs(steps []bbrig.Step) []string {
 func TestC04(t *testing.T) {
 	r := vlib.Start(t, "C04", vlib.LevelExploration)
 	defer r.Finish()
-	r.SetRule("case = (suffrage size 1..9, threshold, local in/out of suffrage, generated script of Vote/VoteSignFact/Count/SetLastPoint/StuckVoteproof/suffrage hide+reveal steps over 2-4 heights (2-3 in the quick tier: every Vote costs ~0.1s CPU under -race) with INIT, ACCEPT, suffrage-confirm, expel, hostile-expel, hostile embedded voteproofs, outsiders, foreign keys, conflicting ballots) run against a real Ballotbox (interval and countAfter 1ms, ticker on); every voteproof read from box.Voteproof() or returned by StuckVoteproof is judged; distinct = (n, threshold, local, script hash, phase); non-trivial = the box emitted at least one voteproof in the case")
+	r.SetRule("case = (suffrage size 1..9, threshold, local in/out of suffrage, generated script of Vote/VoteSignFact/Count/SetLastPoint/StuckVoteproof/suffrage hide+reveal steps over 2-4 heights (2-3 in the quick tier: every Vote costs ~0.1s CPU under -race) with INIT, ACCEPT, suffrage-confirm, expel, hostile-expel, hostile embedded voteproofs (too few signs, outsiders only or among the signers, foreign key, other height, another height's suffrage, low threshold), outsiders, foreign keys, conflicting ballots; identifiers the builder of a voteproof chooses freely are replayed across the steps of a case: half of the hostile embedded voteproofs carry the ID of an honest voteproof of the same script with other content - one carried by an earlier step ('@seen': any stage point, usually validated and emitted by then), the one for the same stage point ('@same': before, among and after its ballots), the one only the next stage will carry ('@later') - on the regular ballots of a stage and on ballots of genuine members for stage points ahead (next stage, next round, next height: 'ahead'); likewise expel facts are replayed under other node signs (an outsider's sign added, one sign only): in a third of the expel stages every voter's ballot has a twin listing the same expel facts with re-signed operations, as the node's second ballot or as the same sign fact arriving first, and half of the conflicting second ballots of expel stages carry re-signed operations; in two thirds of the cases the box misses a stage with probability 0.2 and learns it from the embedded voteproofs of the next one; a directed matrix repeats the ID replay for {after, before the honest voteproof was processed} x {same stage point, next stage, next round, next height} x {kind of invalid content}) run against a real Ballotbox (interval and countAfter 1ms, ticker on); every voteproof read from box.Voteproof() or returned by StuckVoteproof is judged by its content (embedded voteproofs the box hands on included: membership, the real validators against the true suffrage of the voteproof's own height, exact recount), never by its ID; distinct = (n, threshold, local, script hash, phase); non-trivial = the box emitted at least one voteproof in the case")
 	r.Assume("only ballots and sign facts that pass IsValid(networkID) are submitted (the network handlers guarantee that before Vote)")
 	r.Assume("the suffrage of a height never changes once getSuffrage reports it (heights may be 'not found' for a while or for ever); suffrages of consecutive heights may differ (joins, leaves); every emitted voteproof is judged with the true suffrage of its own height from the world table, not with what the box was told")
 	r.Assume("stuck voteproofs are draws by construction (isaac baseStuckVoteproof.finish clears the majority and validation skips their recount); clause (d) asks of them only Result()==DRAW")
@@ -511,5 +617,10 @@ func TestC04(t *testing.T) {
 
 	if r.Counter("emitted_total") == 0 {
 		r.Inconclusive("the ballotbox emitted no voteproof at all")
+	}
+	if r.Counter("ops:embedded_voteproof_with_id_of_already_emitted_voteproof:other_stage_point") == 0 ||
+		r.Counter("ops:embedded_voteproof_with_id_of_already_emitted_voteproof:same_stage_point") == 0 ||
+		r.Counter("ops:embedded_voteproof_with_shared_id_before_any_emission_of_that_id") == 0 {
+		r.Inconclusive("no voteproof ID was replayed with other content after and before the box emitted the voteproof it belongs to")
 	}
 }
